@@ -54,7 +54,10 @@ def one_case(run, specs, specs2=None, label=""):
         return False
     if specs2 is not None:
         b2 = make_basis(specs2)
-        asym = overlap_integral_asymmetric(basis, b2)
+        # each basis is documented as a list or a tuple of shells: all four combinations occur
+        kind = (len(specs) + 2 * len(specs2) + sum(s_.l for s_ in specs)) % 4
+        asym = overlap_integral_asymmetric(tuple(basis) if kind & 1 else list(basis), tuple(b2) if kind & 2 else list(b2))
+        run.count("asymmetric containers " + ("tuple" if kind & 1 else "list") + "/" + ("tuple" if kind & 2 else "list"))
         masym = run.model.array("overlap_asym " + " ".join(basis_tokens(specs)) + " " + " ".join(basis_tokens(specs2)))
         union = overlap_integral(make_basis(specs + specs2))
         n1 = sum(s.size for s in specs)
